@@ -80,7 +80,8 @@ func (g *docGen) value(t *TRef, depth int) string {
 		}
 		switch t.Base() {
 		case "Int", "Float":
-			return `"notanumber"`
+			// (messages quote the literal: escapes and non-ASCII bytes included)
+			return Pick(r, []string{`"notanumber"`, `"notanumber"`, `"not\ta\"number\""`, `"n\u00f6t 1"`, `"é1"`})
 		case "String", "ID":
 			return "RED"
 		case "Boolean":
@@ -93,6 +94,9 @@ func (g *docGen) value(t *TRef, depth int) string {
 			return Misspell(r, Pick(r, def.Values))
 		}
 		if def.Kind == "ENUM" && g.fault("string-for-enum", 40) {
+			if r.Chance(1, 2) {
+				return `"` + Pick(r, def.Values) + `\n"`
+			}
 			return strconv.Quote(Pick(r, def.Values))
 		}
 		if def.Kind == "INPUT" && !def.OneOf && len(def.Fields) > 0 && g.fault("unknown-input-field", 12) {
